@@ -1041,6 +1041,47 @@ fn main() {
     }
     let repo_root = a.repo();
     let mut r = Rng::new(a.seed);
+    // ---- two producers on one task stream (stdout pump / stderr pump): one emit = 9 points
+    // (before_emit, seq_chosen, recorded, sent, log.before_lock, log.locked, log.body_written, log.nl_written, log.flushed)
+    {
+        let kind = Kind::Task;
+        let load = Load::TwoProducers(2);
+        // producer A advances `a` steps (a = 2: parked right after taking its seq number), then producer B tries to run
+        // `b` steps (a whole emit and more), then the subscriber attaches, then everybody finishes
+        let a_steps: Vec<usize> = if thorough { (0..=12).collect() } else { vec![0, 1, 2, 3, 6] };
+        let b_steps: Vec<usize> = if thorough { vec![0, 1, 2, 3, 4, 5, 9, 10, 11, 12, 19] } else { vec![0, 3, 10, 19] };
+        for a_ in &a_steps {
+            for b_ in &b_steps {
+                let mut s = vec![0; *a_];
+                s.extend(vec![PROD_B; *b_]);
+                s.extend([1, 1]);
+                cases.push(Case { kind, load: load.clone(), subs: 1, sched: s, others: 0, reads: 0 });
+                // the subscriber is attached before both and reads as it goes
+                let mut s = vec![1, 1];
+                s.extend(vec![0; *a_]);
+                s.extend(vec![PROD_B; *b_]);
+                s.push(1);
+                s.extend(vec![0; 9]);
+                s.push(1);
+                cases.push(Case { kind, load: load.clone(), subs: 1, sched: s, others: 0, reads: 2 });
+            }
+        }
+        let n_rand = if thorough { 300 } else { 24 };
+        for _ in 0..n_rand {
+            let subs = r.range(1, 3) as usize;
+            let len = r.range(4, 60) as usize;
+            let mut s = vec![];
+            for _ in 0..len {
+                s.push(match r.range(0, 9) {
+                    0..=3 => 0,
+                    4..=6 => PROD_B,
+                    _ => r.range(1, subs as u64) as usize,
+                });
+            }
+            cases.push(Case { kind, load: Load::TwoProducers(r.range(1, 3)), subs, sched: s, others: 0, reads: r.range(0, 2) as usize });
+        }
+    }
+
     for (kind, load) in &loads {
         let trace = producer_points(*kind, load);
         let t = trace.len();
@@ -1136,52 +1177,11 @@ fn main() {
         }
     }
 
-    // ---- two producers on one task stream (stdout pump / stderr pump): one emit = 9 points
-    // (before_emit, seq_chosen, recorded, sent, log.before_lock, log.locked, log.body_written, log.nl_written, log.flushed)
-    {
-        let kind = Kind::Task;
-        let load = Load::TwoProducers(2);
-        // producer A advances `a` steps (a = 2: parked right after taking its seq number), then producer B tries to run
-        // `b` steps (a whole emit and more), then the subscriber attaches, then everybody finishes
-        let a_steps: Vec<usize> = if thorough { (0..=12).collect() } else { vec![0, 1, 2, 3, 4, 6, 11] };
-        let b_steps: Vec<usize> = if thorough { vec![0, 1, 2, 3, 4, 5, 9, 10, 11, 12, 19] } else { vec![0, 2, 3, 10, 19] };
-        for a_ in &a_steps {
-            for b_ in &b_steps {
-                let mut s = vec![0; *a_];
-                s.extend(vec![PROD_B; *b_]);
-                s.extend([1, 1]);
-                cases.push(Case { kind, load: load.clone(), subs: 1, sched: s, others: 0, reads: 0 });
-                // the subscriber is attached before both and reads as it goes
-                let mut s = vec![1, 1];
-                s.extend(vec![0; *a_]);
-                s.extend(vec![PROD_B; *b_]);
-                s.push(1);
-                s.extend(vec![0; 9]);
-                s.push(1);
-                cases.push(Case { kind, load: load.clone(), subs: 1, sched: s, others: 0, reads: 2 });
-            }
-        }
-        let n_rand = if thorough { 300 } else { 40 };
-        for _ in 0..n_rand {
-            let subs = r.range(1, 3) as usize;
-            let len = r.range(4, 60) as usize;
-            let mut s = vec![];
-            for _ in 0..len {
-                s.push(match r.range(0, 9) {
-                    0..=3 => 0,
-                    4..=6 => PROD_B,
-                    _ => r.range(1, subs as u64) as usize,
-                });
-            }
-            cases.push(Case { kind, load: Load::TwoProducers(r.range(1, 3)), subs, sched: s, others: 0, reads: r.range(0, 2) as usize });
-        }
-    }
-
     let mut w = CaseWriter::new(&a.out, "Model.Subscribe", "check_case", "model_obs", 200);
     let mut distinct = Distinct::default();
     let mut env_slot: Option<Env> = None;
     let t0 = Instant::now();
-    let budget = Duration::from_secs(if thorough { 1200 } else { 100 });
+    let budget = Duration::from_secs(if thorough { 1200 } else { 150 });
     let limit: usize = a.extra.get("limit").and_then(|v| v.parse().ok()).unwrap_or(usize::MAX);
     for (i, c) in cases.iter().enumerate() {
         if i >= limit {
